@@ -438,9 +438,17 @@ class ProgGen:
 
     module_scope_assignables = ()
 
-    def params(self, prefix):
+    def params(self, prefix, visible=()):
+        """`visible`: integer names of the *defining* scope; a default value may read one of them (a default is
+        evaluated where the def statement stands: module global, enclosing function's local, class attribute)"""
         r = self.r
         ps = []
+
+        def dflt():
+            if visible and r.random() < 0.5:
+                self.features.add("default-reads-defining-scope")
+                return r.choice(list(visible))
+            return str(r.randrange(0, 9))
         npos = r.randrange(0, 3)
         names = [f"{prefix}p{i}" for i in range(6)]
         it = iter(names)
@@ -454,7 +462,7 @@ class ProgGen:
             sig.append("/")
         ndef = 0
         if r.random() < 0.4:
-            n = next(it); used.append(n); sig.append(f"{n}={r.randrange(0, 9)}"); ndef = 1
+            n = next(it); used.append(n); sig.append(f"{n}={dflt()}"); ndef = 1
         star = None
         if r.random() < 0.2:
             star = f"{prefix}va"; sig.append("*" + star)
@@ -462,7 +470,7 @@ class ProgGen:
         if r.random() < 0.25:
             if star is None:
                 sig.append("*")
-            kwo = next(it); used.append(kwo); sig.append(f"{kwo}={r.randrange(0, 9)}")
+            kwo = next(it); used.append(kwo); sig.append(f"{kwo}={dflt()}")
         kw = None
         if r.random() < 0.15:
             kw = f"{prefix}kw"; sig.append("**" + kw)
@@ -475,7 +483,7 @@ class ProgGen:
         idx = next(self.fn_counter)
         name = f"f{idx}"
         prefix = f"f{idx}_"
-        sig, used, npos, star, kw = self.params(prefix)
+        sig, used, npos, star, kw = self.params(prefix, visible=[v for v in sc.ints if v in getattr(sc, "assignable", []) or sc.kind == "module"])
         L = []
         decos = []
         if r.random() < 0.2 and sc.kind == "module":
@@ -541,7 +549,7 @@ class ProgGen:
         fs = Scope("function", prefix, parent=sc)
         fs.ints = [f"{prefix}a", cell] + [v for v in sc.ints if v != cell][:3]
         fs.assignable = [f"{prefix}a"]
-        fs.allow_nested = False
+        fs.allow_nested = True      # nested scopes below a `nonlocal` rebinding (was avoided while KF-D18 was open; fixed in ce8f95d)
         if r.random() < 0.6:
             self.features.add("nonlocal")
             L.append(f"{pad}    nonlocal {cell}")
@@ -598,7 +606,13 @@ class ProgGen:
             ms.ints = [v for v in sc.ints]
             ms.funcs = list(sc.funcs)
             if mk == "method":
-                L.append(f"{pad}    def {mn}(self, {mn}_a, {mn}_b=2):")
+                if cattrs and r.random() < 0.5:
+                    # defaults that read class attributes (evaluated in the class body), positional and keyword-only
+                    self.features.add("default-reads-class-attribute")
+                    L.append(f"{pad}    def {mn}(self, {mn}_a, {mn}_b={r.choice(cattrs)}, *, {mn}_k={r.choice(cattrs)} + 1):")
+                    ms.ints += [f"{mn}_k"]
+                else:
+                    L.append(f"{pad}    def {mn}(self, {mn}_a, {mn}_b=2):")
                 ms.ints += [f"{mn}_a", f"{mn}_b"]; ms.assignable = [f"{mn}_a"]
                 for _ in range(r.randrange(0, 2)):
                     L += self.stmt(ms, depth - 1, ind + 2)
